@@ -769,7 +769,11 @@ func runProperty(prop, tier string) int {
 	// --- exploration
 	passes := []int{0}
 	if os.Getenv("POLYSYM_NO_REVERSE") == "" {
-		passes = append(passes, 1, 2)
+		passes = append(passes, 1)
+		if tier == "quick" {
+			// the alternating pass is affordable at quick bounds only (C07 thorough did not finish with it)
+			passes = append(passes, 2)
+		}
 	}
 	for _, pass := range passes {
 		rev := pass > 0
